@@ -17,6 +17,9 @@
 
 const char *verif_harness = "qs_seq";
 using namespace verif;
+// offline() of an agent that holds a deferred grace period is refused by a documented TODO assertion; it is recognised by the word
+// "deferred" in the asserted expression, however the flag is spelled (_qs_deferred, deferred_bit, ...)
+static bool mentions_deferred(const std::string &m) { std::string l; for(char ch : m) l += (char)tolower((unsigned char)ch); return l.find("deferred") != std::string::npos; }
 void verif_case_reset() { mutex_log().reset(); }
 
 namespace {
@@ -78,7 +81,7 @@ void verif_case(Ctx &c) {
 			switch(op) {
 			case 0: if(!online[a]) { c.op("a%d.online()", a); if(pending_now()) { nt = true; c.tag("join-while-barrier-pending"); } ag[a]->online(); online[a] = true; } break;
 			case 1: if(online[a]) { c.op("a%d.offline()", a); if(pending_now()) { nt = true; c.tag("leave-while-barrier-pending"); }
-				try { ag[a]->offline(); } catch(Panic &p) { if(p.msg.find("_qs_deferred") != std::string::npos) c.discard("offline() of an agent with a deferred grace period (documented TODO)"); throw; }
+				try { ag[a]->offline(); } catch(Panic &p) { if(mentions_deferred(p.msg)) c.discard("offline() of an agent with a deferred grace period (documented TODO)"); throw; }
 				online[a] = false; quiescent(a); } break;
 			case 2: case 3: case 4: if(online[a]) { c.op("a%d.quiescent_state()", a); ag[a]->quiescent_state(); quiescent(a); } break;
 			case 5: case 6: if(online[a] && w.barriers.size() < 12) {
